@@ -203,6 +203,11 @@ func (p *Parser) ParseReader(r io.Reader, args ...any) (data any, err error) {
 	eof := false
 	var cnt int
 	cnt, err = r.Read(buf)
+	for cnt < 4 && err == nil && (cnt == 0 || buf[0] == 0xEF) { // a BOM may be split across reads
+		var n int
+		n, err = r.Read(buf[cnt:])
+		cnt += n
+	}
 	buf = buf[:cnt]
 	p.mode = valueMap
 	if err != nil {
